@@ -134,7 +134,7 @@ func (r *rig) tcpSession(tok string) (c net.Conn, o outcome) {
 	_ = c.SetDeadline(time.Now().Add(clientWait))
 	msg := []byte(tok + "\n")
 	if _, err := c.Write(msg); err != nil {
-		_ = c.Close()
+		closeConn(c, true)
 		return nil, outcome{Status: -1, Closed: true}
 	}
 	got := 0
@@ -143,7 +143,7 @@ func (r *rig) tcpSession(tok string) (c net.Conn, o outcome) {
 		n, err := c.Read(buf)
 		got += n
 		if err != nil {
-			_ = c.Close()
+			closeConn(c, true)
 			return nil, outcome{Status: -1, Closed: true}
 		}
 	}
@@ -329,7 +329,7 @@ func (r *rig) threshTCP(c *Thresh, classes *[]string, desc func() string) bool {
 	var open []net.Conn
 	defer func() {
 		for _, x := range open {
-			_ = x.Close()
+			closeConn(x, true)
 		}
 	}()
 	for i := 1; i <= c.M; i++ {
@@ -367,7 +367,7 @@ func (r *rig) threshTCP(c *Thresh, classes *[]string, desc func() string) bool {
 	}
 	*classes = append(*classes, "tripped-at-threshold")
 	// one session ends -> exactly one slot is free again
-	_ = open[0].Close()
+	closeConn(open[0], true)
 	open = open[1:]
 	if !r.settle("one session closed", r.conserved(false), desc) {
 		return false
@@ -376,7 +376,7 @@ func (r *rig) threshTCP(c *Thresh, classes *[]string, desc func() string) bool {
 		return false
 	}
 	for _, x := range open {
-		_ = x.Close()
+		closeConn(x, true)
 	}
 	open = nil
 	if !r.settle("end", r.conserved(true), desc) {
